@@ -34,6 +34,8 @@ const (
 	vcEHLOnoarg
 	vcBDAT
 	vcBDATbig
+	vcBDAT0
+	vcBDATpart
 	vcNumCmds
 )
 
@@ -41,14 +43,14 @@ const (
 // is verifC03Limit in the C03 harnesses, so the second one is refused for its size
 const verifC03Limit = 5
 
-var verifCmdPayload = map[int]string{vcBDAT: "hi", vcBDATbig: "123456789"}
+var verifCmdPayload = map[int]string{vcBDAT: "hi", vcBDATbig: "123456789", vcBDATpart: "hi"}
 
 var verifCmdText = [...]string{
 	vcEHLO: "EHLO c.example", vcHELO: "HELO c.example", vcLHLO: "LHLO c.example",
 	vcMAIL: "MAIL FROM:<a@v>", vcMAILbad: "MAIL FROM:<a", vcRCPT: "RCPT TO:<b@v>", vcRCPT2: "RCPT TO:<c@v>",
 	vcRCPTbad: "RCPT TO:<>", vcDATA: "DATA", vcDATAarg: "DATA now", vcRSET: "RSET", vcNOOP: "NOOP", vcVRFY: "VRFY x",
 	vcQUIT: "QUIT", vcUNKNOWN: "FROB x", vcSTARTTLS: "STARTTLS", vcAUTH: "AUTH PLAIN", vcEHLOnoarg: "EHLO",
-	vcBDAT: "BDAT 2 LAST", vcBDATbig: "BDAT 9 LAST",
+	vcBDAT: "BDAT 2 LAST", vcBDATbig: "BDAT 9 LAST", vcBDAT0: "BDAT 0", vcBDATpart: "BDAT 2",
 }
 
 type vexpect struct {
@@ -67,6 +69,9 @@ type vref struct {
 	closed   bool
 	expected []vexpect
 	sess     int
+	xfer     bool // a chunked transfer is open (at least one non-LAST chunk accepted)
+	recv     int  // octets accepted in it so far
+	consumed bool // the last step consumed a backend verdict
 }
 
 func verifErrBackend() error {
@@ -76,12 +81,15 @@ func verifErrBackend() error {
 // step predicts the reply class (first digit) of command cmd given the
 // backend's verdict for the callback it triggers (accept).
 func (r *vref) step(cmd int, accept bool) (class int) {
+	r.consumed = false
 	greet := func() int {
 		if r.greeted {
 			r.expected = append(r.expected, vexpect{"Reset", ""})
 			r.mail, r.rcpts = false, 0
+			r.xfer, r.recv = false, 0
 			return 2
 		}
+		r.consumed = true
 		if !accept {
 			r.expected = append(r.expected, vexpect{"NewSession", "err"})
 			return 5
@@ -117,9 +125,10 @@ func (r *vref) step(cmd int, accept bool) (class int) {
 		}
 		return 5
 	case vcMAIL:
-		if !r.greeted {
+		if !r.greeted || r.xfer {
 			return 5
 		}
+		r.consumed = true
 		r.expected = append(r.expected, vexpect{"Mail", "a@v"})
 		if !accept {
 			return 5
@@ -129,12 +138,13 @@ func (r *vref) step(cmd int, accept bool) (class int) {
 	case vcMAILbad:
 		return 5
 	case vcRCPT, vcRCPT2:
-		if !r.mail {
+		if !r.mail || r.xfer {
 			return 5
 		}
 		if r.maxRcpt > 0 && r.rcpts >= r.maxRcpt {
 			return 4
 		}
+		r.consumed = true
 		a := "b@v"
 		if cmd == vcRCPT2 {
 			a = "c@v"
@@ -148,9 +158,10 @@ func (r *vref) step(cmd int, accept bool) (class int) {
 	case vcRCPTbad:
 		return 5
 	case vcDATA:
-		if !r.mail || r.rcpts == 0 {
+		if !r.mail || r.rcpts == 0 || r.xfer {
 			return 5
 		}
+		r.consumed = true
 		r.expected = append(r.expected, vexpect{"Data", ""})
 		r.expected = append(r.expected, vexpect{"Reset", ""})
 		r.mail, r.rcpts = false, 0
@@ -160,31 +171,43 @@ func (r *vref) step(cmd int, accept bool) (class int) {
 		return 2
 	case vcDATAarg:
 		return 5
-	case vcBDAT:
+	case vcBDAT, vcBDATbig, vcBDAT0, vcBDATpart:
 		if !r.mail || r.rcpts == 0 {
 			return 5
 		}
-		r.expected = append(r.expected, vexpect{"Data", ""})
+		size := map[int]int{vcBDAT: 2, vcBDATbig: 9, vcBDAT0: 0, vcBDATpart: 2}[cmd]
+		last := cmd == vcBDAT || cmd == vcBDATbig
+		if r.recv+size > verifC03Limit {
+			// over the size limit: a failed chunk ends the transaction; the
+			// backend (if the delivery had started) sees its reader fail
+			r.expected = append(r.expected, vexpect{"Reset", ""})
+			r.mail, r.rcpts = false, 0
+			r.xfer, r.recv = false, 0
+			return 5
+		}
+		if !r.xfer {
+			// the first chunk starts the delivery
+			r.expected = append(r.expected, vexpect{"Data", ""})
+		}
+		r.recv += size
+		if !last {
+			r.xfer = true
+			return 2
+		}
+		r.consumed = true
 		r.expected = append(r.expected, vexpect{"Reset", ""})
 		r.mail, r.rcpts = false, 0
+		r.xfer, r.recv = false, 0
 		if !accept {
 			return 5
 		}
 		return 2
-	case vcBDATbig:
-		if !r.mail || r.rcpts == 0 {
-			return 5
-		}
-		// over the size limit: a failed chunk ends the transaction, nothing
-		// reaches the backend but Reset
-		r.expected = append(r.expected, vexpect{"Reset", ""})
-		r.mail, r.rcpts = false, 0
-		return 5
 	case vcRSET:
 		if r.greeted {
 			r.expected = append(r.expected, vexpect{"Reset", ""})
 		}
 		r.mail, r.rcpts = false, 0
+		r.xfer, r.recv = false, 0
 		return 2
 	case vcNOOP, vcVRFY:
 		return 2
@@ -205,10 +228,37 @@ func (r *vref) step(cmd int, accept bool) (class int) {
 	return 0
 }
 
-func verif_C03_run() {
+func verifWithoutData(tr []vevent) []vevent {
+	var out []vevent
+	for _, e := range tr {
+		if e.kind != "Data" {
+			out = append(out, e)
+		}
+	}
+	return out
+}
+
+func verifExpectWithoutData(ex []vexpect) []vexpect {
+	var out []vexpect
+	for _, e := range ex {
+		if e.kind != "Data" {
+			out = append(out, e)
+		}
+	}
+	return out
+}
+
+func verif_C03_run() { verifC03run(nil, verifBound(3, 4)) }
+
+// verif_C03_run_open: the same, starting inside an open transaction (greeting,
+// MAIL and one RCPT already accepted), so that histories of the same length
+// reach chunked transfers and what may and may not happen inside them.
+func verif_C03_run_open() { verifC03run([]int{vcEHLO, vcMAIL, vcRCPT}, verifBound(2, 3)) }
+
+func verifC03run(prefix []int, k int) {
 	verifPreemptBound(0)
 	verifSchedForkBound(0)
-	k := verifBound(3, 4)
+	k += len(prefix)
 	lmtp := nondetBool()
 	maxRcpt := 0
 	if nondetBool() {
@@ -264,7 +314,15 @@ func verif_C03_run() {
 		if sent >= k || c.closed {
 			return false
 		}
-		cmd := verifChoice(vcNumCmds)
+		var cmd int
+		if sent < len(prefix) {
+			cmd = prefix[sent]
+			if lmtp && cmd == vcEHLO {
+				cmd = vcLHLO
+			}
+		} else {
+			cmd = verifChoice(vcNumCmds)
+		}
 		cmds = append(cmds, cmd)
 		replyStart = append(replyStart, len(c.out))
 		sent++
@@ -283,6 +341,7 @@ func verif_C03_run() {
 	}
 	c := newConn(vc, s)
 	s.handleConn(c)
+	verifSettle()
 
 	// replay the history through the reference
 	ai := 0
@@ -295,19 +354,12 @@ func verif_C03_run() {
 		switch cmd {
 		case vcEHLO, vcHELO, vcLHLO:
 			acc = newSessAccept
-		case vcMAIL, vcRCPT, vcRCPT2, vcDATA, vcBDAT:
-			// consumes a verdict iff the reference says the callback happens
-			pre := len(ref.expected)
+		case vcMAIL, vcRCPT, vcRCPT2, vcDATA, vcBDAT, vcBDATbig, vcBDAT0, vcBDATpart:
+			// consumes a verdict iff the reference says the callback's verdict is asked for
 			probe := *ref
 			probe.expected = append([]vexpect{}, ref.expected...)
 			probe.step(cmd, true)
-			called := false
-			for _, e := range probe.expected[pre:] {
-				if e.kind == "Mail" || e.kind == "Rcpt" || e.kind == "Data" {
-					called = true
-				}
-			}
-			if called {
+			if probe.consumed {
 				if ai < len(accepts) {
 					acc = accepts[ai]
 				}
@@ -339,10 +391,15 @@ func verif_C03_run() {
 	}
 	// compare callback sequences
 	verifObserve("c03", lmtp, maxRcpt, len(cmds), len(be.trace), len(ref.expected))
-	verifAssert(len(be.trace) == len(ref.expected), "C03.callback-count-matches-reference")
-	if len(be.trace) == len(ref.expected) {
-		for i, e := range be.trace {
-			x := ref.expected[i]
+	// (the delivery of a chunked transfer runs beside the command loop: where
+	// its Data call falls among the other callbacks is not fixed, that it
+	// happens - once per transfer - is)
+	got, want := verifWithoutData(be.trace), verifExpectWithoutData(ref.expected)
+	verifAssert(len(be.trace)-len(got) == len(ref.expected)-len(want), "C03.data-call-count-matches-reference")
+	verifAssert(len(got) == len(want), "C03.callback-count-matches-reference")
+	if len(got) == len(want) {
+		for i, e := range got {
+			x := want[i]
 			ok := e.kind == x.kind
 			if ok && (x.kind == "Mail" || x.kind == "Rcpt") {
 				ok = e.arg == x.arg
@@ -511,10 +568,13 @@ func verif_C03_step() {
 		got = reps[0].code / 100
 	}
 	verifAssert(got == class, "C03.step-reply-class-matches-reference")
-	verifAssert(len(be.trace) == len(ref.expected), "C03.step-callback-count-matches-reference")
-	if len(be.trace) == len(ref.expected) {
-		for i, e := range be.trace {
-			x := ref.expected[i]
+	verifSettle()
+	sgot, swant := verifWithoutData(be.trace), verifExpectWithoutData(ref.expected)
+	verifAssert(len(be.trace)-len(sgot) == len(ref.expected)-len(swant), "C03.step-data-call-count-matches-reference")
+	verifAssert(len(sgot) == len(swant), "C03.step-callback-count-matches-reference")
+	if len(sgot) == len(swant) {
+		for i, e := range sgot {
+			x := swant[i]
 			ok := e.kind == x.kind
 			if ok && (x.kind == "Mail" || x.kind == "Rcpt") {
 				ok = e.arg == x.arg
@@ -532,7 +592,7 @@ func verif_C03_step() {
 	verifAssert(c.fromReceived == ref.mail && len(c.recipients) == ref.rcpts, "C03.step-envelope-matches-reference")
 	verifAssert((c.helo != "") == ref.greeted && (c.session != nil) == ref.greeted, "C03.step-greeting-matches-reference")
 	verifAssert(c.errCount == ref.errs && c.errCount <= 3, "C03.step-error-count-matches-reference")
-	verifAssert(c.bdatPipe == nil && !c.didAuth, "C03.step-no-transfer-no-auth")
+	verifAssert((c.bdatPipe != nil) == ref.xfer && !c.didAuth, "C03.step-transfer-state-matches-reference")
 	verifAssert(c.text.R.Buffered() == 0 || cmd == vcDATA && class == 5, "C03.step-chunk-consumed")
 	verifAssert(!(ref.rcpts > 0) || ref.mail, "C03.step-inv-rcpts-imply-mail")
 	verifAssert(!ref.mail || ref.greeted, "C03.step-inv-mail-implies-greeted")
@@ -691,4 +751,100 @@ func verif_C03_isolation() {
 	}
 	verifAssert(len(b.out) > 0, "C03.isolation-replies-present")
 	verifReach("C03.isolation-end")
+}
+
+// verif_C03_greeting_equiv: however the client greeted (EHLO, HELO, either one
+// repeated, one after the other, in any letter case), the transaction that
+// follows - DATA or BDAT, with a refused recipient and an out-of-order command
+// in it - gets the same reply codes and causes the same callbacks as after a
+// single EHLO; every repeated greeting is signalled by exactly one Reset and
+// creates no second session.
+func verif_C03_greeting_equiv() {
+	verifPreemptBound(0)
+	verifSchedForkBound(0)
+	greets := [][]string{
+		{"EHLO c.example"}, {"HELO c.example"}, {"ehlo c.example"}, {"Helo c.example"},
+		{"EHLO c.example", "EHLO c.example"}, {"HELO c.example", "EHLO c.example"}, {"EHLO c.example", "HELO c.example"},
+		{"EHLO c.example", "EHLO d.example", "HELO e.example"},
+	}
+	g := greets[verifChoice(len(greets))]
+	bdat := nondetBool()
+	reject := nondetBool()
+	body := "DATA\r\nhi\r\n.\r\n"
+	if bdat {
+		body = "BDAT 2 LAST\r\nhi"
+	}
+	txn := "RCPT TO:<early@v>\r\nMAIL FROM:<a@v>\r\nRCPT TO:<rej@v>\r\nRCPT TO:<b@v>\r\n" + body + "NOOP\r\n"
+	type obs struct {
+		codes []int
+		calls []string
+		sess  int
+	}
+	run := func(gs []string) obs {
+		var o obs
+		be := &vbackend{}
+		be.rcptErr = func(to string) error {
+			if to == "rej@v" {
+				return verifErrBackend()
+			}
+			return nil
+		}
+		be.dataFn = func(_ *vsession, r io.Reader) error {
+			verifReadAll(r, 4)
+			if reject {
+				return verifErrBackend()
+			}
+			return nil
+		}
+		s, _ := verifServer(be)
+		in := ""
+		for _, x := range gs {
+			in += x + "\r\n"
+		}
+		vc, _, _ := verifServe(s, []byte(in+txn), io.EOF)
+		reps, wf := verifParseReplies(vc.out)
+		verifAssert(wf && len(reps) > 1+len(gs), "C03.greeting-replies-wellformed")
+		if wf && len(reps) > 1+len(gs) {
+			for _, r := range reps[1 : 1+len(gs)] {
+				verifAssert(r.code == 250, "C03.greeting-accepted")
+			}
+			for _, r := range reps[1+len(gs):] {
+				o.codes = append(o.codes, r.code)
+			}
+		}
+		resets := 0
+		started := false
+		for _, e := range be.trace {
+			if e.kind == "Mail" || e.kind == "Rcpt" || e.kind == "Data" {
+				started = true
+			}
+			if !started {
+				if e.kind == "Reset" {
+					resets++
+				}
+				continue
+			}
+			o.calls = append(o.calls, e.kind+" "+e.arg)
+		}
+		verifAssert(resets == len(gs)-1, "C03.greeting-repeat-is-one-reset")
+		o.sess = be.sessions
+		return o
+	}
+	ref := run([]string{"EHLO c.example"})
+	got := run(g)
+	verifObserve("c03greet", len(g), bdat, reject, len(ref.codes), len(got.codes), len(ref.calls), len(got.calls))
+	verifAssert(got.sess == 1 && ref.sess == 1, "C03.greeting-one-session")
+	verifAssert(len(ref.codes) == len(got.codes), "C03.greeting-same-reply-count")
+	if len(ref.codes) == len(got.codes) {
+		for i := range ref.codes {
+			verifAssert(ref.codes[i] == got.codes[i], "C03.greeting-same-reply-codes")
+		}
+	}
+	verifAssert(len(ref.calls) == len(got.calls), "C03.greeting-same-callbacks")
+	if len(ref.calls) == len(got.calls) {
+		for i := range ref.calls {
+			verifAssert(ref.calls[i] == got.calls[i], "C03.greeting-same-callbacks")
+		}
+	}
+	verifReach("C03.greeting-end")
 }
